@@ -644,7 +644,10 @@ class C15(Check):
                         oc = (p_alive[0][0], p_alive[0][2]) if p_alive else ('absent', 'k')
                         for seq in rng.sample(gen_req_seqs(rng, header, nm, s, forged, p_header, oc), 4):
                             answers = real.req_ops(header, seq)
-                            ans = ' | '.join(f'{canon_result(r)} calls={hbl(c)}' for r, c in answers) or '~'
+                            if answers is None:     # a faulty tree made an operation of the sequence raise
+                                ans = 'raised'
+                            else:
+                                ans = ' | '.join(f'{canon_result(r)} calls={hbl(c)}' for r, c in answers) or '~'
                             bump('req-seq')
                             out.append((f'cookie req {pk_table(pairs + p_pairs)} {hs(header)} '
                                         + ' '.join(enc_rop(o) for o in seq), ans,
